@@ -157,6 +157,10 @@ def gen_sched(rng, event: str, rep_ts: int, run, big: bool):
              version=version, inband=True)
     if event == "scte35":
         s["program_id"] = rng.choice([0, 1, 345, 1620, 1620, 65535])
+    if rng.random() < .25:
+        # the `value` string of the event stream (emsg `value` field): opaque text classes
+        s["value"] = rng.choice(["", "0", "a b", "a+b", "x&y;z=1", "&nbsp;&#0;&lt;", "{0}{name}}", "0x1F", "true", "null",
+                                 "dGVzdA==", "\u00e9\u00fc\u20ac\U0001f600", "emsg", "v" * 1024, "%41%2B"])
     return s
 
 
